@@ -1,6 +1,7 @@
 import G3D.Proofs.Builders
 import G3D.Proofs.BuildersReal
 import G3D.Proofs.CosSqBound
+import G3D.Proofs.SmallAngle
 /-! # C14 — shape builders  (partial: Sphere volume / convexity and the closed-form AREAS of the round shapes are not proved)
     Three layers (the vertices of the round shapes are irrational, so they never pass through the rational constructors):
     (i)  combinatorial skeletons of the face lists exactly as the Python builds them, with the flips the ConvexPolyhedron
@@ -52,6 +53,12 @@ theorem frame_is_orthogonal (n b : V3) (hb : cross n b ≠ zero) :
       cross (frameW1 n b) (frameW2 n b) = smul (normSq (frameW1 n b)) n := frame_orthogonal n b hb
 /-- a direction cannot be close to both the x and the y axis -/
 theorem not_near_both_axes (n : V3) (hn : n ≠ zero) : cosSqVec n ⟨1,0,0⟩ + cosSqVec n ⟨0,1,0⟩ ≤ 1 := cosSq_xy_le_one n hn
+
+/-- the concrete threshold of the code, cos²(SMALL_ANGLE) with SMALL_ANGLE extracted from utils/constant.py (= 1/10), lies in
+    [1/2, 1): the hypothesis of `frame_always_defined` holds for the real code -/
+theorem threshold_in_range :
+    (1:ℝ) / 2 ≤ Real.cos ((G3D.Extracted.smallAngle : ℚ) : ℝ) ^ 2 ∧ Real.cos ((G3D.Extracted.smallAngle : ℚ) : ℝ) ^ 2 < 1 :=
+  cos_sq_smallAngle_range
 
 /-! ### exact rational shapes -/
 theorem parallelogram_area (p a b : V3) : normSq (vecArea2 (parallelogramPts p a b)) = 4 * normSq (cross a b) :=
